@@ -218,7 +218,16 @@ def run(case, ctx):
         ctx.violate(f"C15/construct:{objs.type}", f"{objs!r}")
         return
     d1 = M.deep_copy(doc)
-    ok, vd = call(lambda: valida.Schema(list(objs)).validate(d1))
+
+    def make_schema():
+        if len(repr(rules)) % 5 == 0:
+            # composed schema: the rules arrive through add_schema under the empty root
+            ctx.count("schema-composed-with-add_schema")
+            s_ = valida.Schema([])
+            s_.add_schema(valida.Schema(list(objs)), build.path_obj(PC.mkpath([])))
+            return s_
+        return valida.Schema(list(objs))
+    ok, vd = call(lambda: make_schema().validate(d1))
     if not ok:
         ctx.violate(f"C15/{vd.key()}/{casts}", f"validate raised {vd!r}\n rules={rules}\n doc={doc!r}")
         return
